@@ -1,5 +1,40 @@
-"""kernels of ast.rs (repeat propagation) — filled in by the C14 work"""
+"""C16 part: the deliberate panic!s of ast.rs (repeat propagation), reached through the whole derive executed from MIR
+(crate parsers + from_syn; syn token primitives modelled)."""
+import itertools
+import z3
+from engine import Ref, Cell, Panic
 
 
 def repeat_panics(ctx):
-    return
+    import synmodel, c13
+    e = ctx.engine()
+    synmodel.install(e)
+    flags = ['', '#[repeat] ', '#[stop_repeat] #[repeat] ', '#[stop_repeat] ', '#[skip_repeat] ', '#[repeat(permeate())] ']
+    items = []
+    for a, b, c in itertools.product(range(len(flags)), repeat=3):
+        items.append(('field', '#[map(X)] struct S { %sx: i32, %sy: i32, %sz: i32 }' % (flags[a], flags[b], flags[c])))
+    for a, b in itertools.product(range(4), repeat=2):
+        items.append(('variant', '#[map(X)] enum E { %sA, %sB, C }' % (flags[a], flags[b])))
+        items.append(('variant-field', '#[map(X)] enum E { A { %sx: i32, %sy: i32 }, B { z: i32 } }' % (flags[a], flags[b])))
+        items.append(('variant-field-permeate', '#[map(X)] enum E { A { #[repeat(permeate())] x: i32 }, B { %sy: i32, %sz: i32 } }' % (flags[a], flags[b])))
+
+    def run(eng):
+        v = z3.Int('item')
+        eng.assume(z3.And(v >= 0, v < len(items)))
+        k = eng.decide([(i, v == i) for i in range(len(items))])
+        eng.aux['k'] = k
+        return c13.outcome(eng, items[k][1], {})
+    res = e.explore(run)
+    ctx.absorb(e, res)
+    todo = [(r.aux['k'], r.value) for r in res if r.kind == 'ok']
+    nat = ctx.replay.run_many([items[k][1] for k, _ in todo])
+    for (k, out), n in zip(todo, nat):
+        kind, text = items[k]
+        if (out[0] == 'panic') != (n['status'] == 'panic'):
+            ctx.inconclusive.append('ENCODING-MISMATCH (repeat kernels): %s :: engine %s native %s' % (text, out[0], n['status']))
+            continue
+        ctx.cov['traces_validated_against_impl'] += 1
+        if out[0] == 'panic':
+            ctx.violation('ast::multiple_from_syn', 'second #[repeat] without #[stop_repeat] (%s)' % ('variant' if kind == 'variant' else 'field'),
+                          'derive panics: %s' % n['msg'], {'input': text, 'native': n['msg']})
+    ctx.cov['sub_checks']['repeat_placements'] = len(items)
